@@ -42,7 +42,7 @@ const DataLayout*                     DL;
 std::unordered_map<uint64_t, Function*> Addr2Fn;
 DenseMap<const GlobalValue*, uint64_t> GAddr;
 std::set<std::string>*                native_seen;
-uint64_t                              fake_next = 0x7e0000000000ULL;
+uint64_t                              fake_next = 0x0100000000000000ULL;
 int                                   merge_cap = 64;
 int                                   conc_cap  = 64;
 bool                                  trace     = false;
@@ -144,10 +144,10 @@ void div_guard(const Val& b)
 {
     if (b.isC())
     {
-        if (b.c.isZero()) finish(K_CRASH, "integer division by zero");
+        if (b.c.isZero()) finish(K_FAULT, "integer division by zero");
         return;
     }
-    if (decide(E(b) == C->bv_val(0, b.w))) finish(K_CRASH, "integer division by zero");
+    if (decide(E(b) == C->bv_val(0, b.w))) finish(K_FAULT, "integer division by zero");
 }
 
 Val binop(unsigned opc, const Val& a, const Val& b)
@@ -670,7 +670,7 @@ Val   load_val(uint64_t a, Type* t)
     {
         unsigned w  = bitsOf(t);
         unsigned nb = (unsigned)DL->getTypeStoreSize(t);
-        if (a < 4096) finish(K_CRASH, "null pointer dereference (load)");
+        if (a < 4096) finish(K_FAULT, "null pointer dereference (load)");
         check_freed(a);
         Val r = load_bytes(a, nb);
         if (8 * nb != w) r = r.isC() ? VA(r.c.trunc(w)) : VS(E(r).extract(w - 1, 0));
@@ -700,7 +700,7 @@ void store_val(uint64_t a, Type* t, const Val& v)
     if (isScalar(t))
     {
         unsigned nb = (unsigned)DL->getTypeStoreSize(t);
-        if (a < 4096) finish(K_CRASH, "null pointer dereference (store)");
+        if (a < 4096) finish(K_FAULT, "null pointer dereference (store)");
         check_freed(a);
         if (v.k == Val::U)
         {
@@ -818,6 +818,12 @@ uint64_t gaddr(GlobalVariable* g)
     auto it = GAddr.find(g);
     if (it != GAddr.end()) return it->second;
     uint64_t a = 0;
+    if (g->getName() == "__dso_handle")
+    {
+        static uint64_t dummy_dso[2];
+        GAddr[g] = (uint64_t)&dummy_dso[0];
+        return GAddr[g];
+    }
     if (!g->hasLocalLinkage())
     {
         a = (uint64_t)dlsym(RTLD_DEFAULT, g->getName().str().c_str());
